@@ -67,6 +67,13 @@ pub fn exec(op: &str, args: &[&str], out: &mut Out) -> Option<()> {
             out.check(it == rt, "C04", || format!("IntoIterator of {s:?}"));
             let back = PointerBuf::from_tokens(p.tokens());
             out.check(back.as_str() == s, "C04", || format!("from_tokens(tokens({s:?})) = {:?}", back.as_str()));
+            // the remaining conversions: IntoIterator for &PointerBuf, From<Token> for Component, From<&Token> for Token, root()
+            let it2: Vec<String> = (&back).into_iter().map(|t| t.encoded().to_string()).collect();
+            out.check(it2 == rt, "C04", || format!("IntoIterator for &PointerBuf of {s:?}"));
+            for t in &toks {
+                out.check(Component::from(t.clone()) == Component::Token(t.clone()) && &Token::from(t) == t, "C04,C18", || format!("From<Token> for Component / From<&Token> for Token on {:?}", t.encoded()));
+            }
+            out.check(PointerBuf::root().as_str().is_empty() && PointerBuf::root() == PointerBuf::new() && Pointer::root().is_root(), "C04,C01", || "root() is not the empty pointer".to_string());
             for t in &toks {
                 out.check(rfc_tok(t.encoded().as_bytes()), "C01", || format!("tokens({s:?}) yields invalid token {:?}", t.encoded()));
                 out.check(t.decoded() == rfc_unescape(t.encoded()), "C04,C03", || format!("decoded of token {:?}", t.encoded()));
@@ -155,6 +162,23 @@ pub fn gen(tier: &str, rng: &mut Rng, emit: &mut dyn FnMut(String)) {
             }
         }
     });
+    // texts beyond the small scope, as single tokens and between neighbours; pointers with many tokens
+    for s in boundary_texts(tier) {
+        let e = rfc_escape(&s);
+        emit(format!("ftok {}", hex(s.as_bytes())));
+        emit(format!("ftok {} {} {}", hex(b"a"), hex(s.as_bytes()), hex(b"")));
+        emit(format!("acc {}", hex(format!("/{e}").as_bytes())));
+        emit(format!("acc {}", hex(format!("/x/{e}/y").as_bytes())));
+        emit(format!("acc {}", hex(format!("/{e}/{e}").as_bytes())));
+    }
+    for n in MANY {
+        for tok in ["a", "", "~0", "ab"] {
+            let p: String = (0..n).map(|_| format!("/{tok}")).collect();
+            emit(format!("acc {}", hex(p.as_bytes())));
+            let fields: Vec<String> = (0..n).map(|_| hex(tok.as_bytes())).collect();
+            emit(format!("ftok {}", fields.join(" ")));
+        }
+    }
     // From<usize>: every power of ten and its neighbours, the extremes, random values of every width
     let mut pw: u128 = 1;
     while pw <= usize::MAX as u128 {
